@@ -375,6 +375,37 @@ def region_of(kind, cfg, p, octets: bytes, i: int) -> str:
     return "params"
 
 
+# ------------------------------------------------ packets whose running CRC hits a chosen value at a boundary
+def craft_crc_boundary(kind, cfg, p, where="header", target=0):
+    """Return (cfg', p') equal to (cfg, p) except for 16 bits (low bits of the sequence number, or of the file offset for
+    where="offset") chosen so that the CRC-16 over the PDU prefix ending at that boundary equals `target`; None if impossible."""
+    from spverif.ref.crc import find16, crc16
+    raw = ref_octets(kind, cfg, p)
+    idw, seqw = cfg["idw"], cfg["seqw"]
+    hl = R.header_len(idw, seqw)
+    if where == "header":
+        if seqw < 2:
+            return None
+        k = 4 + idw + seqw - 2
+        x = find16(raw[:k], lambda x: x.to_bytes(2, "big") + raw[k + 2:hl], target)
+        if x is None:
+            return None
+        cfg2 = dict(cfg, seq=(cfg["seq"] & ~0xFFFF) | x)
+        assert crc16(ref_octets(kind, cfg2, p)[:hl]) == target
+        return cfg2, p
+    if where == "offset" and kind == "file_data":
+        fss = 8 if cfg["large"] else 4
+        start = hl + (0 if p["seg_meta"] is None else 1 + len(p["seg_meta"][1]) // 2)
+        k = start + fss - 2
+        x = find16(raw[:k], lambda x: x.to_bytes(2, "big"), target)
+        if x is None:
+            return None
+        p2 = dict(p, offset=(p["offset"] & ~0xFFFF) | x)
+        assert crc16(ref_octets(kind, cfg, p2)[:k + 2]) == target
+        return cfg, p2
+    return None
+
+
 # ------------------------------------------------------------ aliasing monitor
 class Isolation:
     """Objects returned by earlier decodes must not change when later, different inputs are decoded
